@@ -378,3 +378,22 @@ def rule_lookaround_kind(col, facts):
                       "%s! classifies the byte at `%s`, a %s look-around, but a predicate %s consecutive separators must use a %s one" % (pred, show(e), {"run": "run-skipping", "single": "one-byte", "?": "unrecognised"}[kind], "with" if want == "run" else "without", {"run": "run-skipping (indexing!(@nextc/@prevc))", "single": "one-byte (indexing!(@next/@prev))"}[want]),
                       f.loc(f.blocks[bb]["ts"]))
     col.floor(R, "look-around index computations in peek", n, 60)
+
+
+def rule_skip_zeros_unit(col, facts):
+    """UNIT-count: DigitsIter::skip_zeros returns a number of *digits* (its callers subtract it from digit
+    counts and compare it with 1 for the base prefix): current_count() after minus current_count() before.
+    cursor() differences also count the separator bytes skipped along the way."""
+    R = "UNIT-count"
+    f = facts.fn("lexical_util::iterator::DigitsIter::skip_zeros")
+    rets = [rv for bb, j, rv, pr in f.defs().get(0, []) if rv[0] != "call"]
+    col.check(R, "skip_zeros:anchor", len(rets) == 1, "skip_zeros has %d result assignments" % len(rets), f.loc())
+    if len(rets) != 1:
+        return
+    e = strip_casts(rvalue_expr(f, rets[0], 0))
+    names = sorted(last_seg(c[1]) for c in expr_calls(e))
+    col.check(R, "skip_zeros:digits", e[0] == "bin" and e[1] == "Sub" and names == ["current_count", "current_count"],
+              "skip_zeros returns `%s`: not a difference of current_count() - with digit separators the result counts bytes, and the many-digits detection / base-prefix test that consume it go wrong" % show(e), f.loc())
+    # the loop counts every zero it consumes
+    calls = [last_seg(callee_name(c)) for _b, c, _a, _d, _t in f.calls()]
+    col.check(R, "skip_zeros:increments", "increment_count" in calls, "skip_zeros consumes zeros without increment_count()", f.loc())
